@@ -26,6 +26,10 @@ TABLES = {
    ("protocols::valve::types::game", "new_from_valve_response", None, {}, "per-game response projection"),
    ("protocols::valve::types::game", "from_valve_response", None, {}, "per-game player projection"),
    ("protocols::valve::types", "get_optional_extracted_data", None, W, "extra data projection"),
+   ("protocols::valve::protocol", "new", "ValveProtocol", {}, "client construction (socket, retry count)"),
+   ("protocols::valve::protocol", "get_request_data", None, {}, "request with retries"),
+   ("protocols::valve::protocol", "get_response", None, {}, "info / players / rules sequencing, app-id check"),
+   ("protocols::valve::protocol", "query", None, {}, "public entry"),
   ]},
  "C03": {"provenance": "wiki.vg 'Server List Ping' (Java JSON status, legacy 1.6 / 1.4 / beta 1.8 kick packets) and node-gamedig minecraftbedrock.js; pinned tree reviewed",
   "fns": [
@@ -44,6 +48,16 @@ TABLES = {
    ("games::minecraft::protocol", "query_legacy_specific", None, CL, "legacy dispatch"),
    ("games::minecraft", "query", None, CL, "game-level auto-detect"),
    ("games::minecraft", "query_legacy", None, CL, "game-level legacy"),
+   ("games::minecraft::protocol::java", "query", "Java", {}, "java entry"),
+   ("games::minecraft::protocol::bedrock", "query", "Bedrock", {}, "bedrock entry"),
+   ("games::minecraft::protocol::legacy_v1_6", "query", "LegacyV1_6", {}, "legacy 1.6 entry"),
+   ("games::minecraft::protocol::legacy_v1_4", "query", "LegacyV1_4", {}, "legacy 1.4 entry"),
+   ("games::minecraft::protocol::legacy_vb1_8", "query", "LegacyVB1_8", {}, "legacy b1.8 entry"),
+   ("games::minecraft::protocol", "query_java", None, {}, "protocol-level java"),
+   ("games::minecraft::protocol", "query_bedrock", None, {}, "protocol-level bedrock"),
+   ("games::minecraft", "query_java", None, {}, "game-level java"),
+   ("games::minecraft", "query_bedrock", None, {}, "game-level bedrock"),
+   ("games::minecraft", "query_legacy_specific", None, {}, "game-level legacy dispatch"),
   ]},
  "C04": {"provenance": "node-gamedig gamespy1.js / gamespy2.js / gamespy3.js as cited by PROTOCOLS.md; pinned tree reviewed",
   "fns": [
@@ -63,6 +77,8 @@ TABLES = {
    ("protocols::gamespy::protocols::three::protocol", "parse_players_and_teams", None, {}, "GS3 player/team sections"),
    ("protocols::gamespy::protocols::three::protocol", "query", None, CL, "GS3 response mapping"),
    ("protocols::gamespy::protocols::three::protocol", "query_vars", None, CL, "GS3 raw variables"),
+   ("protocols::gamespy::protocols::three::protocol", "new_custom", "GameSpy3", {}, "GS3 client construction"),
+   ("protocols::gamespy::protocols::three::protocol", "get_server_packets", "GameSpy3", {}, "GS3 packets with retries"),
   ]},
  "C05": {"provenance": "node-gamedig quake1.js/quake2.js/quake3.js; pinned tree reviewed",
   "fns": [
@@ -77,6 +93,9 @@ TABLES = {
    ("protocols::quake::one", "get_response_header", None, W, "Q1 response prefix"),
    ("protocols::quake::two", "get_response_header", None, W, "Q2 response prefix"),
    ("protocols::quake::three", "get_response_header", None, W, "Q3 response prefix"),
+   ("protocols::quake::one", "query", None, {}, "Q1 entry"),
+   ("protocols::quake::two", "query", None, {}, "Q2 entry"),
+   ("protocols::quake::three", "query", None, {}, "Q3 entry"),
   ]},
  "C06": {"provenance": "node-gamedig unreal2.js; pinned tree reviewed",
   "fns": [
@@ -89,6 +108,8 @@ TABLES = {
    ("protocols::unreal2::types", "parse", "MutatorsAndRules", {}, "mutators and rules"),
    ("protocols::unreal2::types", "parse", "Players", {}, "players / bots"),
    ("protocols::unreal2::protocol", "decode_string", None, W, "length-prefixed Latin-1 / UCS-2 strings with colour stripping"),
+   ("protocols::unreal2::protocol", "new", "Unreal2Protocol", {}, "client construction"),
+   ("protocols::unreal2::protocol", "query", "", {}, "public entry"),
   ]},
  "C07": {"provenance": "node-gamedig ffow.js / savage2.js / jc2mp.js, Mindustry NetworkIO.java, pinned tree reviewed",
   "fns": [
@@ -104,6 +125,15 @@ TABLES = {
    ("games::battalion1944", "query", None, CL, "Battalion 1944 overrides"),
    ("games::eco::types", "from", "Response as From", {}, "Eco Root -> Response"),
    ("games::eco::protocol", "query_with_timeout_and_extra_settings", None, CL, "Eco exchange"),
+   ("games::eco::protocol", "query", None, {}, "Eco entry"),
+   ("games::eco::protocol", "query_with_timeout", None, {}, "Eco entry with timeout"),
+   ("games::ffow::protocol", "query", None, {}, "FFOW entry"),
+   ("games::jc2m::protocol", "query", None, {}, "JC2M entry"),
+   ("games::savage2::protocol", "query", None, {}, "Savage 2 entry"),
+   ("games::theship::protocol", "query", None, {}, "The Ship entry"),
+   ("games::theship::protocol", "query_with_timeout", None, {}, "The Ship entry with timeout"),
+   ("games::mindustry", "query", None, {}, "Mindustry game entry"),
+   ("games::mindustry::protocol", "query_with_retries", None, {}, "Mindustry retries"),
   ]},
  "C09": {"provenance": "request layouts of each protocol (Valve wiki, wiki.vg, node-gamedig); pinned tree reviewed after the big-endian port fix",
   "fns": [
@@ -202,15 +232,20 @@ TABLES = {
    ("services::valve_master_server::service", "query_specific", None, CL, "reply page"),
    ("services::valve_master_server::service", "query", "ValveMasterServer", CL, "paging loop"),
    ("services::valve_master_server::service", "query_singular", None, CL, "single page"),
+   ("services::valve_master_server::service", "new", "ValveMasterServer", {}, "client construction"),
+   ("services::valve_master_server::service", "query", "", {}, "public entry"),
+   ("services::valve_master_server::service", "default_master_address", None, {}, "default master address"),
   ]},
 }
 
 
 def resolve(idx, mod, name, ty, crate_prefix="gamedig"):
     pre = crate_prefix + "::" + (mod + "::" if mod else "")
-    c = [k for k in idx if k.startswith(pre) and k.endswith("::" + name) and (ty is None or ty in k)
+    c = [k for k in idx if k.startswith(pre) and k.endswith("::" + name) and (not ty or ty in k)
          and ("::" not in k[len(pre):-len(name) - 2].replace("::<", "<").split("<")[0] if k[len(pre):-len(name) - 2] and not k[len(pre):].startswith("<") else True)]
     c = [k for k in c if (k[len(pre):] == name) or k[len(pre):].startswith("<")]
+    if ty == "":
+        c = [k for k in c if k[len(pre):] == name]
     return c
 
 
